@@ -648,6 +648,8 @@ def explicit_of(p: dict) -> dict:
     def info(pg, g, nm):
         if nm in pg["untyped"]:
             return []
+        if nm in pg.get("doconly", ()):
+            return [f"g{g}:{nm}.{k}" for k in ("doc", "meta")]
         return [f"g{g}:{nm}.{k}" for k in ("ty", "sh", "doc", "meta")]
 
     gs = []
